@@ -97,7 +97,28 @@ func RunCheck(self, prop, mode string) int {
 		fmt.Printf("%s %s step %d tier=%s bound=%d%s: %d scenarios, %d executions, %.1fs\n", prop, mode, i, st.Tier, st.Bound, map[bool]string{true: "+2@active", false: ""}[st.Bound2],
 			res.Stats.Scenarios-before.Scenarios, res.Stats.Execs-before.Execs, time.Since(ts).Seconds())
 	}
-	return Conclude(prop, mode, res, stepInfo, t0, "scenario x map-iteration-order executions of the real library (deviation-bounded stateless DFS)")
+	rule := "scenario x map-iteration-order executions of the real library (deviation-bounded stateless DFS)"
+	if prop == "C11" || prop == "C12" {
+		rule = "schedules: every interleaving of the threads within the preemption bound, under a cooperative scheduler over hooked shared-memory accesses, body yields and lock acquires of the real library (plus, for C11, sequential histories x map orders); states = executions (distinct schedules / choice sequences), transitions = scheduling + choice points"
+		ts := time.Now()
+		var fds []Replay
+		var cases int
+		var err error
+		if os.Getenv("VERIF_SKIP_RACE") == "1" { // development only: never set by registered commands
+			fmt.Println("race pass skipped (VERIF_SKIP_RACE=1)")
+		} else {
+			fds, cases, err = RacePass(prop, mode, tmp)
+		}
+		if err != nil {
+			fmt.Fprintln(os.Stderr, "HARNESS ERROR:", err)
+			return 2
+		}
+		res.Findings = append(res.Findings, fds...)
+		res.RaceCases = cases
+		stepInfo = append(stepInfo, map[string]interface{}{"tier": "race-pass", "doc": "free-running -race pass over the same cases on the plain build (4 repetitions each, real goroutines released together)", "cases": cases, "reports": len(fds), "wall_s": time.Since(ts).Seconds()})
+		fmt.Printf("%s %s race pass: %d cases x 4 repetitions on the plain -race build, %d reports, %.1fs\n", prop, mode, cases, len(fds), time.Since(ts).Seconds())
+	}
+	return Conclude(prop, mode, res, stepInfo, t0, rule)
 }
 
 // Conclude prints the verdict lines, writes evidence and returns the exit status.
